@@ -1,4 +1,4 @@
-(* Byte-level model of the NPD loader vnadata_load_npd.c as coded (with fixes DT1 and DT2):
+(* Byte-level model of the NPD loader vnadata_load_npd.c as coded (with fixes DT1, DT2 and DB91):
    scan_line (white-space splitting, '#' comments, '#:keyword' fields, the joining of the
    '#:parameters' fields), the record types, the header loop, the field accounting, the data lines.
    parse_format of vnadata_set_format.c is included because the loader's outcome depends on it.
@@ -243,13 +243,13 @@ Definition hline_step (h : nhdr) (k : nkey) (fields : list (list N)) : nclass + 
       end
   | NKFprecision =>
       match nnint fields with
-      | Some z => if (1000 <? z)%Z then inl NEBADMSG
+      | Some z => if (z <? 1)%Z || (1000 <? z)%Z then inl NEBADMSG
                   else inr (mknh (n_ports h) (n_rows h) (n_columns h) (n_frequencies h) (n_params h) (Some z) (n_dprec h) (n_fz0 h) (n_z0 h))
       | None => inl NEBADMSG
       end
   | NKDprecision =>
       match nnint fields with
-      | Some z => if (1000 <? z)%Z then inl NEBADMSG
+      | Some z => if (z <? 1)%Z || (1000 <? z)%Z then inl NEBADMSG
                   else inr (mknh (n_ports h) (n_rows h) (n_columns h) (n_frequencies h) (n_params h) (n_fprec h) (Some z) (n_fz0 h) (n_z0 h))
       | None => inl NEBADMSG
       end
@@ -274,6 +274,24 @@ Definition hline_step (h : nhdr) (k : nkey) (fields : list (list N)) : nclass + 
               else inl NEBADMSG
           end
       end
+  end.
+
+(* the two precision records before fix DB91: 0 was accepted and stored *)
+Definition hline_step_asfound (h : nhdr) (k : nkey) (fields : list (list N)) : nclass + nhdr :=
+  match k with
+  | NKFprecision =>
+      match nnint fields with
+      | Some z => if (1000 <? z)%Z then inl NEBADMSG
+                  else inr (mknh (n_ports h) (n_rows h) (n_columns h) (n_frequencies h) (n_params h) (Some z) (n_dprec h) (n_fz0 h) (n_z0 h))
+      | None => inl NEBADMSG
+      end
+  | NKDprecision =>
+      match nnint fields with
+      | Some z => if (1000 <? z)%Z then inl NEBADMSG
+                  else inr (mknh (n_ports h) (n_rows h) (n_columns h) (n_frequencies h) (n_params h) (n_fprec h) (Some z) (n_fz0 h) (n_z0 h))
+      | None => inl NEBADMSG
+      end
+  | _ => hline_step h k fields
   end.
 
 (* field accounting ("Find the best parameter") *)
